@@ -579,14 +579,32 @@ def str_cases(draw):
         if draw(st.booleans()):
             c['count'] = draw(count)
     elif fn == 'replace-dict':
+        # (keys of different types with the same string form - 1 and '1',
+        # null and 'null' - are distinct keys, applied one after the other)
         keys = st.one_of(st.sampled_from(['a', 'ab', 'abc', 'b', ' ', 'x']),
+                         st.sampled_from(['1', '0', 'null', 'true', '1']),
                          st.integers(0, 2), st.none(), st.booleans())
         vals = st.one_of(st.sampled_from(['x', 'yy', '', 'a', 'b']),
                          st.integers(0, 2), st.none())
         c['s'] = draw(st.one_of(strings, st.sampled_from(
-            ['abc ab abc', 'a1b0', 'null true', 'aabb'])))
+            ['abc ab abc', 'a1b0', 'null true', 'aabb', 'a1b1',
+             'null null true', '1101'])))
         c['pairs'] = draw(st.lists(st.tuples(keys, vals), min_size=0,
-                                   max_size=3))
+                                   max_size=4))
+        if draw(st.integers(0, 2)) == 0:
+            # two distinct keys with one string form, in either order
+            a, b, text = draw(st.sampled_from([
+                (1, '1', 'a1b1'), (0, '0', '1001'), (None, 'null',
+                                                     'null null'),
+                (True, 'true', 'true or true'), (2, '2', '2 2 2')]))
+            twin = [(a, draw(vals)), (b, draw(vals))]
+            if draw(st.booleans()):
+                twin.reverse()
+            at = draw(st.integers(0, len(c['pairs'])))
+            c['pairs'] = [p_ for p_ in c['pairs'] if p_[0] not in (
+                a, b)][:2]
+            c['pairs'][at:at] = twin
+            c['s'] = text
         if draw(st.booleans()):
             c['count'] = draw(count)
     elif fn == 'case':
